@@ -24,6 +24,7 @@ cases, same order of side effects):
               stop throws ABORTS the scan (children in later slots keep running),
     `true`  = the repaired loop of `fixes/c14_map_stop.patch`: every slot gets its attempt
               (`FirstExceptionRecorder`), the first error is rethrown at the end.
+* `reduce_node.cpp`: the combiner graphs of the heap-shaped tree (see the section on the reduce node below).
 * `switch_node.cpp`: two graph slots, `activate_branch` (build next, stop the active branch, start
   next), `switch_teardown`, `switch_node_stop`.
 * `executor.cpp run_storage`: an evaluation error ends the run; the `stop_graph` guard stops the root
